@@ -109,6 +109,45 @@ PROPS = {
  ),
 }
 
+E2_NOTE = ("Trusted: clang 14 front end (names resolved, templates parsed), the canonicaliser in tools/nmlint.cc, and the reviewed oracle/exception "
+           "tables under /verif/tools. Rules are over the resolved AST of the template definitions, not text; a refactor that keeps the idiom "
+           "(renamed locals, extra local variables, reordered independent statements) stays silent, a new idiom must be added to the table with a reason.")
+E2_TECH = "static: custom libTooling fact extractor + rules over canonical AST facts (forwarding / table agreement)"
+
+PROPS["C07"] = dict(
+    level="other",
+    claim="For every ufunc and single-expression activation (74 names) the scalar operation in the op type equals the reviewed NumPy/PyTorch oracle table with operands in order; view::X/reduce_X/accumulate_X/outer_X construct the ufunc with the op of the same name and pass operands in order; ufunc/outer views apply op to the operands' elements in tuple order. The broadcast element law itself is not decided.",
+    note=E2_NOTE,
+    technique=E2_TECH,
+    e2=[dict(rule="R-UFUNC")],
+    rule="E2: one instance per op call operator (R-UFOP), per view-level ufunc entry point (R-UFWD), per ufunc-view application site (R-UFAPPLY); distinct by qualified function; non-trivial = the function has a body with a return",
+    explanation="Name -> scalar operation and operand order are structural facts of the op types and forwarding functions; they are compared with an oracle table and with the function's own parameter list.",
+    not_decided="which operand element feeds index i under broadcasting (C06 element law), dtype promotion, values of math functions, multi-statement activations and clip (listed in the table as not covered)",
+    assumptions=["oracle table tools/ufunc_table.json reviewed against NumPy/PyTorch definitions"],
+)
+PROPS["C10"] = dict(
+    level="other",
+    claim="Every eager entry point under array/array (209) builds exactly one view by calling view::<its own name> with its own leading parameters in declaration order and returns eval() of that view with context, output and resolver forwarded; so the eager result is the evaluation of the lazy view the user would have built. The evaluator's copy loop is checked separately (R-EVAL).",
+    note=E2_NOTE,
+    technique=E2_TECH,
+    e2=[dict(rule="R-FWD.array")],
+    rule="E2: one instance per function template with a `context` parameter under include/nmtools/array/array; distinct by qualified name and parameter list",
+    explanation="Wrapper forwarding is visible in the shape of the code: wrong view, permuted/dropped/duplicated argument or evaluation of a different object is reported with the wrapper's name.",
+    not_decided="composition unobservability (value level), result type adequacy (C11), non-default contexts",
+    assumptions=["exception table tools/fwd_tables.json (4 entries, one reason each)"],
+)
+PROPS["C14"] = dict(
+    level="other",
+    claim="Every leaf functor callable (52) forwards its argument pack unchanged to view::<own name>; every functional:: object (126) binds the callable/op of its own name with the operand arity of the oracle table; the 73 ufunc aliases bind the op type of the same name; get_function_t<view X> hands back functional::X. Currying, composition associativity and graph extraction are not decided.",
+    note=E2_NOTE,
+    technique=E2_TECH,
+    e2=[dict(rule="R-FWD.functional")],
+    rule="E2: one instance per functor callable, functor object, op alias and get_function specialisation under include/nmtools/array/functional (core machinery files excluded); distinct by qualified name",
+    explanation="A functor equals the direct view call only if its callable forwards to the view of the same name with the same arity; these are structural facts.",
+    not_decided="currying splits, f*g associativity, operand identity, compute-graph node ids (value level)",
+    assumptions=["arity oracle tools/functional_arity.json reviewed by hand"],
+)
+
 HOOK_COMMITS = []
 NOT_APPLICABLE = [
  dict(property_id="C05", reason="slice lengths go through ceil(float) and an 8-way sign/None case split on run-time values; no sound static argument in reach, and weaker structural proxies are not necessary conditions (DESIGN §3 C05)"),
